@@ -62,6 +62,7 @@ struct Outcome {
     Violation   v;
     RunStats    st;
     std::string blob;   // profile-specific payload from the child (event list, disk image, per-call results...)
+    std::string plan_text; // judge(): the derived plan that actually failed (e.g. the program plus one fault)
     std::string stderr_text;
 };
 
@@ -111,6 +112,10 @@ struct Profile {
     virtual bool nontrivial(const Outcome &o) const { return o.st.checks > 0 && o.st.ops_done >= 2; }
     // generic argument shrinking allowed for this op/arg?
     virtual bool shrinkable(const Op &, size_t) const { return true; }
+    virtual int  minimise_budget() const { return 700; }
+    // may the minimiser drop this op?  (structural markers of a plan are kept)
+    virtual bool removable(const Plan &, size_t) const { return true; }
+    virtual bool faults_removable() const { return true; }
 };
 
 struct Exec {
@@ -120,6 +125,7 @@ struct Exec {
     Outcome  run(const Plan &plan, int mode = 0, const std::string *in = nullptr);
 };
 
+void     accumulate(RunStats &into, const RunStats &from); // fold a secondary execution into the evidence counters
 void     register_profile(Profile *p);
 Profile *find_profile(const std::string &name_or_property);
 std::vector<Profile *> &all_profiles();
